@@ -17,6 +17,9 @@
 #include "hcommon.h"
 #include <memory>
 #include <stdexcept>
+#include <signal.h>
+#include <sys/time.h>
+#include <unistd.h>
 
 time_t squid_curtime = 0;
 
@@ -102,17 +105,39 @@ static void runCase(const std::vector<std::string> &a, std::ostringstream &o) {
     o << " L" << m.memLimit();
 }
 
+// Watchdog: a case that makes ClpMap loop (e.g. trim() never reaching its goal) must become
+// an answer, not a hung check. After 2 s of CPU time inside one case: report it as hung,
+// answer every remaining input line with SKIP, and stop.
+static void onHang(int) {
+    static const char msg[] = " EXC HANG no answer within 2 s of CPU time (endless loop)\n";
+    (void)!write(1, msg, sizeof(msg) - 1);
+    std::string rest;
+    while (std::getline(std::cin, rest)) {
+        static const char skip[] = "SKIP after-hang\n";
+        (void)!write(1, skip, sizeof(skip) - 1);
+    }
+    _exit(0);
+}
+static void armWatchdog(const time_t seconds) {
+    struct itimerval t = {};
+    t.it_value.tv_sec = seconds;
+    setitimer(ITIMER_VIRTUAL, &t, nullptr);
+}
+
 int main() {
+    signal(SIGVTALRM, onHang);
     std::string line;
     while (std::getline(std::cin, line)) {
         auto a = splitws(line);
         if (a.empty()) { std::cout << "\n"; continue; }
         std::ostringstream o;
+        armWatchdog(2);
         try {
             if (a[0] == "seq") runCase(a, o);
             else o << "ERR unknown-entry " << a[0];
         } catch (const AssertionFailure &e) { o << " EXC " << e.what(); }
         catch (const std::exception &e) { o << " EXC " << e.what(); }
+        armWatchdog(0);
         std::cout << o.str() << "\n" << std::flush;
     }
     return 0;
